@@ -181,7 +181,7 @@ Definition is_primary (t : pty) : bool :=
 
 Definition is_msg_ty (t : fty) : bool :=
   match t with
-  | TDate _ _ | TDecimal _ _ | TTimestamp _ | TAny | TObject _ | TOneof _ => true
+  | TDate _ _ | TDecimal _ _ | TTimestamp _ | TAny _ | TObject _ | TOneof _ => true
   | _ => false
   end.
 
